@@ -64,4 +64,58 @@ theorem mem_transitionIndex (A : Air) (s k : Nat) :
   · rintro ⟨s', hs', k', hk', rfl, rfl⟩; exact ⟨hs', hk'⟩
   · rintro ⟨hs, hk⟩; exact ⟨s, hs, k, hk, rfl, rfl⟩
 
+/-- the cell at (column j, row s) -/
+def cellAt (cols : List (List Nat)) (j s : Nat) : Option Nat := (cols[j]?).bind (·[s]?)
+
+theorem rowAt_congr : ∀ (cols cols' : List (List Nat)) (s : Nat), cols.length = cols'.length →
+    (∀ j, cellAt cols j s = cellAt cols' j s) → rowAt cols s = rowAt cols' s
+  | [], [], _, _, _ => rfl
+  | [], _ :: _, _, hl, _ => by simp at hl
+  | _ :: _, [], _, hl, _ => by simp at hl
+  | c :: cs, c' :: cs', s, hl, h => by
+    have h0 : c[s]? = c'[s]? := by simpa [cellAt] using h 0
+    have ht : rowAt cs s = rowAt cs' s :=
+      rowAt_congr cs cs' s (by simpa using hl) (fun j => by simpa [cellAt] using h (j + 1))
+    unfold rowAt at ht ⊢
+    simp only [List.mapM_cons, h0, ht]
+
+theorem transitionHolds_congr (A : Air) (M : Nat) (cols cols' : List (List Nat)) (s k : Nat)
+    (hl : cols.length = cols'.length)
+    (h0 : ∀ j, cellAt cols j s = cellAt cols' j s) (h1 : ∀ j, cellAt cols j (s + 1) = cellAt cols' j (s + 1)) :
+    transitionHolds A M cols s k = transitionHolds A M cols' s k := by
+  unfold transitionHolds
+  rw [rowAt_congr cols cols' s hl h0, rowAt_congr cols cols' (s + 1) hl h1]
+
+theorem assertionHolds_congr (A : Air) (cols cols' : List (List Nat)) (pubs : List Nat) (k i : Nat)
+    (h : ∀ a s, A.assertions[k]? = some a → (a.steps A.n)[i]? = some s → cellAt cols a.column s = cellAt cols' a.column s) :
+    assertionHolds A cols pubs k i = assertionHolds A cols' pubs k i := by
+  unfold assertionHolds
+  cases ha : A.assertions[k]? with
+  | none => rfl
+  | some a =>
+    simp only
+    cases hs : (a.steps A.n)[i]? with
+    | none => simp
+    | some s =>
+      have := h a s ha hs
+      unfold cellAt at this
+      cases hc : cols[a.column]? with
+      | none =>
+        cases hc' : cols'[a.column]? with
+        | none => rfl
+        | some col' =>
+          rw [hc, hc'] at this
+          simp only [Option.bind_none, Option.bind_some] at this
+          simp [← this]
+      | some col =>
+        cases hc' : cols'[a.column]? with
+        | none =>
+          rw [hc, hc'] at this
+          simp only [Option.bind_none, Option.bind_some] at this
+          simp [this]
+        | some col' =>
+          rw [hc, hc'] at this
+          simp only [Option.bind_some] at this
+          simp [this]
+
 end WinterProofs.C02L
